@@ -99,6 +99,12 @@ class Interp(Engine):
                 return a == b
             except Exception:
                 raise Outside("== on %r, %r" % (a, b))
+        if isinstance(a, tuple) and isinstance(b, V) and b.ty.kind == 'opt':
+            a, b = b, a
+        if isinstance(b, tuple) and isinstance(a, V) and a.ty.kind == 'opt':
+            # Optional[Tuple[...]] against a tuple: present and equal component-wise
+            o = opt_sort(to_sort(a.ty.args[0], self.reg))
+            return self._and([o.is_some(a.t), self.py_eq(V(o.val(a.t), a.ty.args[0]), b, st)])
         if isinstance(a, tuple) or isinstance(b, tuple):
             ta = a if isinstance(a, tuple) else self.untuple(a)
             tb = b if isinstance(b, tuple) else self.untuple(b)
@@ -1024,6 +1030,8 @@ class Interp(Engine):
             # symbolic bound: use it as is when it is provably within 0..len (keeps terms small)
             if self.entails(st, z3.And(t >= 0, t <= n)):
                 return t, True
+            if self.entails(st, t >= 0):
+                return z3.If(t > n, n, t), False
             return z3.If(t < 0, z3.If(n + t < 0, 0, n + t), z3.If(t > n, n, t)), False
         a, a_ok = norm(lo, z3.IntVal(0))
         b2, b_ok = norm(hi, n)
